@@ -102,6 +102,16 @@ func (g *gw) smallCount(max int, what string) int {
 	return rapid.IntRange(0, max).Draw(g.t, g.label(what))
 }
 
+// loopCount: 0..4 loops, in one case of six 13..16 (more than 12 loops switch
+// Polygon.Edge / ChainPosition to the cumulative-edges table; the loops may have
+// no vertices at all).
+func (g *gw) loopCount() int {
+	if g.rare(6, "nlmany") {
+		return rapid.IntRange(13, 16).Draw(g.t, g.label("nlm"))
+	}
+	return g.smallCount(4, "nl")
+}
+
 // declared returns the count to write for n actual elements: usually n.
 func (g *gw) declared(n int, what string) uint64 {
 	switch rapid.IntRange(0, 11).Draw(g.t, g.label(what)) { // 7 and 9: about once in 20 each
@@ -249,7 +259,7 @@ func genGrammar(t *rapid.T) bytesCase {
 			g.u8(4)
 			level := rapid.SampledFrom([]int{0, 1, 7, 8, 9, 16, 17, 24, 29, 30, 30}).Draw(t, "level")
 			g.u8(byte(level))
-			n := g.smallCount(4, "nl")
+			n := g.loopCount()
 			g.uv(g.declared(n, "nld"))
 			for i := 0; i < n; i++ {
 				g.loopCompressed(level)
@@ -258,7 +268,7 @@ func genGrammar(t *rapid.T) bytesCase {
 			g.u8(1)
 			g.u8(rapid.SampledFrom([]byte{1, 0, 255}).Draw(t, "owns"))
 			g.u8(rapid.SampledFrom([]byte{0, 1, 2}).Draw(t, "holes"))
-			n := g.smallCount(4, "nl")
+			n := g.loopCount()
 			g.u32(uint32(g.declared(n, "nld")))
 			for i := 0; i < n; i++ {
 				g.loopLossless()
